@@ -49,7 +49,7 @@ func c13Doc(t *rapid.T, tag string) map[string]any {
 // c13Query draws one query over a document built with the given tag.
 func c13Query(t *rapid.T, tag string, site int, readOnlyOnly bool) (q string, orderOpen bool, kind string, reader bool) {
 	kinds := []string{"filter", "subquery", "exists", "join", "pjoin", "group", "async", "order", "cte", "phash", "reader", "in_sub", "spinasync", "derived",
-		"range_reader", "range_from", "distinct_reader", "cte_async", "derived_async", "sub_async", "range_col", "pjoin_fail", "var_corunner", "join_using", "union", "distinct_wide", "distinct_wide_reader", "cte_join_using", "cte_self_pjoin", "like", "like", "cte_direct_slow"}
+		"range_reader", "range_from", "distinct_reader", "cte_async", "derived_async", "sub_async", "range_col", "pjoin_fail", "var_corunner", "join_using", "union", "distinct_wide", "distinct_wide_reader", "cte_join_using", "cte_self_pjoin", "like", "like", "cte_direct_slow", "sub2_async"}
 	kind = rapid.SampledFrom(kinds).Draw(t, "qkind")
 	k := rapid.IntRange(0, 4).Draw(t, "k") * 10
 	T, U, id, a, s, n, v, b := "t"+tag, "u"+tag, "id"+tag, "a"+tag, "s"+tag, "n"+tag, "v"+tag, "b"+tag
@@ -103,6 +103,9 @@ func c13Query(t *rapid.T, tag string, site int, readOnlyOnly bool) (q string, or
 	case "cte_direct_slow":
 		// a selector that walks through a CTE whose body is slow: evaluated while other clients parse new selectors
 		return fmt.Sprintf("WITH c%s AS (SELECT %s, %s, ASYNC.fx(%d, %s) AS y FROM %s) SELECT %s FROM `c%s.%s`", tag, id, n, site, a, T, v, tag, n), false, kind, false
+	case "sub2_async":
+		// the ASYNC call sits two query levels below the executed statement
+		return fmt.Sprintf("SELECT %s, (SELECT %s, (SELECT ASYNC.fx(%d, 5) AS deep FROM dual) AS inner2 FROM %s) AS sub FROM %s", id, v, site, n, T), false, kind, false
 	case "join_using":
 		// the builder rewrites USING into an ON expression: two queries with the same text must not share that tree
 		jt := rapid.SampledFrom([]string{"JOIN", "LEFT JOIN", "PARALLEL JOIN", "HASH_JOIN"}).Draw(t, "ujt")
